@@ -115,8 +115,29 @@ func build(sw *sim.World) {
 	sw.Notef("W-ADR: %s repeater=%v dwell=%d, %d steps, faults=%v", w.name, rep, dt, nSteps, w.faults)
 	simrt.ForceRunToBlock()
 	nsSub, devSub := simrt.Raw(), simrt.Raw()
+	first := freshSig(name, rep, dt)
+	sw.Finish = append(sw.Finish, func() {
+		if last := freshSig(name, rep, dt); last != first {
+			simrt.Report("band.fresh-config-changed:"+w.name, fmt.Sprintf("a band obtained from GetConfig after this run's history differs from one obtained before it: %s -> %s", first, last))
+		}
+	})
 	sw.Spawn("ns", func() { netServer(w, nSteps, nsSub) })
 	sw.Spawn("device", func() { device(w, devSub) })
+}
+
+// freshSig describes a brand-new band object of the configuration.
+func freshSig(name band.Name, rep bool, dt lorawan.DwellTime) string {
+	b, err := band.GetConfig(name, rep, dt)
+	if err != nil {
+		return err.Error()
+	}
+	s := fmt.Sprint(b.GetUplinkChannelIndices(), b.GetEnabledUplinkChannelIndices(), b.GetCustomUplinkChannelIndices())
+	for _, i := range b.GetUplinkChannelIndices() {
+		c, _ := b.GetUplinkChannel(i)
+		d, _ := b.GetDownlinkChannel(i)
+		s += fmt.Sprintf("|%v/%v", c, d)
+	}
+	return s
 }
 
 func pause(key int32, deadline int64) bool {
